@@ -5,8 +5,11 @@ cd /repo || exit 1
 git diff --quiet || { echo "/repo not clean"; exit 3; }
 git apply "$patch" || { echo "patch does not apply"; exit 3; }
 cd /verif
+# evidence files are rewritten by every run: keep the ones from the unchanged tree and put them back afterwards
+mkdir -p .cache/ev_keep; for p in "$@"; do cp -f evidence/$p.json .cache/ev_keep/ 2>/dev/null; done
 for p in "$@"; do
   ./check $p 2>&1 | grep -E "^(VIOLATION|KNOWN-FINDING|UNDECIDED|C[0-9]+:)" | cut -c1-400
 done
 git -C /repo checkout -- .
+for p in "$@"; do [ -f .cache/ev_keep/$p.json ] && { mkdir -p .cache/ev_seeded; cp -f evidence/$p.json .cache/ev_seeded/ 2>/dev/null; cp -f .cache/ev_keep/$p.json evidence/$p.json; }; done
 git -C /repo status --short | head -3
